@@ -654,6 +654,14 @@ def parse_vc(path):
                 raise ExtractError(f'{path}: bad #type line: {s}')
             unit['sections'].append({'kind': 'type', 'file': m.group(1), 'tkind': m.group(2),
                                      'name': m.group(3), 'opts': m.group(4).split()})
+        elif s.startswith('#const '):
+            # `#const FILE :: NAME`: a `const NAME: T = EXPR;` item of the file, taken as it is (visibility normalised to `pub`)
+            # `#const FILE :: NAME == VALUE [:: proof-hint]`: emitted as `pub exec const NAME: T ensures NAME == VALUE { proof { hint } EXPR }`,
+            # i.e. the verifier PROVES that the real initialiser evaluates to VALUE (the value the property speaks of)
+            m = re.match(r'#const\s+(\S+)\s*::\s*(\w+)(?:\s+as\s+(\S+))?(?:\s*==\s*(.+?))?(?:\s*::\s*(.+))?$', s)
+            if not m:
+                raise ExtractError(f'{path}: bad #const line: {s}')
+            unit['sections'].append({'kind': 'const', 'file': m.group(1), 'name': m.group(2), 'id': m.group(3), 'value': m.group(4), 'hint': m.group(5)})
         elif s.startswith('#fn '):
             m = re.match(r'#fn\s+(\S+)\s*::\s*(.+?)\s*::\s*(\w+)\s*$', s)
             if not m:
@@ -1518,6 +1526,36 @@ def extract_fn(repo, spec, features):
     }
 
 
+def extract_const(repo, spec):
+    path = os.path.join(repo, spec['file'])
+    if not os.path.exists(path):
+        raise ExtractError(f'lost anchor: file {spec["file"]}')
+    sf = SourceFile.get(path)
+    T = sf.toks
+    hits = []
+    for i, t in enumerate(T):
+        if is_id(t, 'const') and i + 2 < len(T) and is_id(T[i + 1], spec['name']) and is_p(T[i + 2], ':'):
+            e = i
+            while not is_p(T[e], ';'):
+                e = sf.pairs[e] + 1 if (T[e].kind == 'punct' and T[e].text in '([{') else e + 1
+            hits.append((i, e))
+    if len(hits) != 1:
+        raise ExtractError(f'lost anchor: const {spec["name"]} in {spec["file"]} ({len(hits)} matches)')
+    i, e = hits[0]
+    text = 'pub ' + sf.text[T[i].start:T[e].end]
+    if spec.get('value'):
+        k = i + 3
+        while not is_p(T[k], '='):
+            k += 1
+        ty = sf.text[T[i + 3].start:T[k].start].strip()
+        expr = sf.text[T[k + 1].start:T[e].start].strip()
+        hint = f'proof {{ {spec["hint"]} }} ' if spec.get('hint') else ''
+        text = (f'pub exec const {spec["name"]}: {ty}\n{GB}\n    ensures {spec["name"]} == {spec["value"]}\n{GE}\n'
+                f'{{ {GB}{hint}{GE}{expr} }}')
+    return {'text': text, 'file': spec['file'], 'line': sf.line_of(T[i].start), 'name': spec['name'],
+            'log': [{'step': 'E4', 'note': 'visibility of the const item normalised to pub; written as `exec const` with its value as postcondition'}]}
+
+
 def extract_type(repo, spec, features):
     path = os.path.join(repo, spec['file'])
     if not os.path.exists(path):
@@ -1657,6 +1695,17 @@ def build_unit(vc_path, repo):
         cur_line = ''.join(parts).count('\n') + 1
         if sec['kind'] == 'raw':
             parts.append(sec['text'] + '\n')
+        elif sec['kind'] == 'const':
+            t = extract_const(repo, sec)
+            res.types.append({k: t[k] for k in ('file', 'line', 'name', 'log')})
+            body_c = f'// extracted: {t["file"]}:{t["line"]}\n' + t['text'] + '\n'
+            if sec.get('id') and sec.get('value'):
+                # a const whose value is proved is an obligation of its own
+                res.line_map.append((cur_line, cur_line + body_c.count('\n'), sec['id']))
+                res.functions.append({'id': sec['id'], 'file': t['file'], 'line': t['line'], 'end_line': t['line'],
+                                      'name': 'const ' + t['name'], 'sha256': hashlib.sha256(t['text'].encode()).hexdigest(),
+                                      'loops': 0, 'closures': 0, 'log': t['log']})
+            parts.append(body_c + '\n')
         elif sec['kind'] == 'type':
             t = extract_type(repo, sec, feats)
             res.types.append({k: t[k] for k in ('file', 'line', 'name', 'log')})
